@@ -313,7 +313,7 @@ pub fn explore_rule(ctx: &Ctx, gi: usize, ri: usize, rep: &mut Report, note: &dy
     rep.max_len_done = rep.max_len_done.max(ctx.len_for(e));
     // Owning nondeterminism: the complete observation of the first cases of every rule is taken twice
     // and compared; a difference is reported under the running lens.
-    if ctx.opts.only_input.is_none() && !matches!(ctx.opts.lens.as_str(), "C15" | "C16" | "C17") {
+    if !matches!(ctx.opts.lens.as_str(), "C15" | "C16" | "C17") {
         let g = &ctx.grammars[gi];
         for input in inputs_for(ctx, e, 0).iter().take(12) {
             if ill_founded(g, ri, input) {
